@@ -97,16 +97,18 @@ func intTypes() map[string]intType {
 			[]func(uint64) bool{func(v uint64) bool { return ok(p.CheckValidOpCode(p.OpCode(v))) }}},
 		"ResultType": {32, func(v uint64) bool { return p.ResultType(v).IsValid() }, func(v uint64) string { return p.ResultType(v).String() },
 			[]func(uint64) bool{func(v uint64) bool { return ok(p.CheckValidResultType(p.ResultType(v))) }}},
-		"ErrorCode":        {32, func(v uint64) bool { return p.ErrorCode(v).IsValid() }, func(v uint64) string { return p.ErrorCode(v).String() }, nil},
+		"ErrorCode": {32, func(v uint64) bool { return p.ErrorCode(v).IsValid() }, func(v uint64) string { return p.ErrorCode(v).String() }, nil},
 		"ConsistencyLevel": {16, func(v uint64) bool { return p.ConsistencyLevel(v).IsValid() }, func(v uint64) string { return p.ConsistencyLevel(v).String() },
 			[]func(uint64) bool{func(v uint64) bool { return ok(p.CheckValidConsistencyLevel(p.ConsistencyLevel(v))) }}},
 		"DataTypeCode": {16, func(v uint64) bool { return p.DataTypeCode(v).IsValid() }, func(v uint64) string { return p.DataTypeCode(v).String() },
 			[]func(uint64) bool{func(v uint64) bool { return ok(p.CheckValidDataTypeCode(p.DataTypeCode(v), p.ProtocolVersion4)) }}},
 		"BatchType": {8, func(v uint64) bool { return p.BatchType(v).IsValid() }, func(v uint64) string { return p.BatchType(v).String() },
 			[]func(uint64) bool{func(v uint64) bool { return ok(p.CheckValidBatchType(p.BatchType(v))) }}},
-		"BatchChildType":  {8, func(v uint64) bool { return p.BatchChildType(v).IsValid() }, func(v uint64) string { return p.BatchChildType(v).String() }, nil},
+		"BatchChildType": {8, func(v uint64) bool { return p.BatchChildType(v).IsValid() }, func(v uint64) string { return p.BatchChildType(v).String() }, nil},
 		"DseRevisionType": {32, func(v uint64) bool { return p.DseRevisionType(v).IsValid() }, func(v uint64) string { return p.DseRevisionType(v).String() },
-			[]func(uint64) bool{func(v uint64) bool { return ok(p.CheckValidDseRevisionType(p.DseRevisionType(v), p.ProtocolVersionDse2)) }}},
+			[]func(uint64) bool{func(v uint64) bool {
+				return ok(p.CheckValidDseRevisionType(p.DseRevisionType(v), p.ProtocolVersionDse2))
+			}}},
 		"FailureCode": {16, func(v uint64) bool { return p.FailureCode(v).IsValid() }, func(v uint64) string { return p.FailureCode(v).String() },
 			[]func(uint64) bool{func(v uint64) bool { return ok(p.CheckValidFailureCode(p.FailureCode(v))) }}},
 	}
@@ -115,13 +117,17 @@ func intTypes() map[string]intType {
 func strTypes() map[string]strType {
 	ok := func(err error) bool { return err == nil }
 	return map[string]strType{
-		"WriteType":          {func(s string) bool { return p.WriteType(s).IsValid() }, []func(string) bool{func(s string) bool { return ok(p.CheckValidWriteType(p.WriteType(s))) }}},
-		"EventType":          {func(s string) bool { return p.EventType(s).IsValid() }, []func(string) bool{func(s string) bool { return ok(p.CheckValidEventType(p.EventType(s))) }}},
-		"SchemaChangeType":   {func(s string) bool { return p.SchemaChangeType(s).IsValid() }, []func(string) bool{func(s string) bool { return ok(p.CheckValidSchemaChangeType(p.SchemaChangeType(s))) }}},
-		"SchemaChangeTarget": {func(s string) bool { return p.SchemaChangeTarget(s).IsValid() }, []func(string) bool{func(s string) bool { return ok(p.CheckValidSchemaChangeTarget(p.SchemaChangeTarget(s), p.ProtocolVersion4)) }}},
-		"TopologyChangeType": {func(s string) bool { return p.TopologyChangeType(s).IsValid() }, []func(string) bool{func(s string) bool { return ok(p.CheckValidTopologyChangeType(p.TopologyChangeType(s), p.ProtocolVersion3)) }}},
-		"StatusChangeType":   {func(s string) bool { return p.StatusChangeType(s).IsValid() }, []func(string) bool{func(s string) bool { return ok(p.CheckValidStatusChangeType(p.StatusChangeType(s))) }}},
-		"Compression":        {func(s string) bool { return p.Compression(s).IsValid() }, nil},
+		"WriteType":        {func(s string) bool { return p.WriteType(s).IsValid() }, []func(string) bool{func(s string) bool { return ok(p.CheckValidWriteType(p.WriteType(s))) }}},
+		"EventType":        {func(s string) bool { return p.EventType(s).IsValid() }, []func(string) bool{func(s string) bool { return ok(p.CheckValidEventType(p.EventType(s))) }}},
+		"SchemaChangeType": {func(s string) bool { return p.SchemaChangeType(s).IsValid() }, []func(string) bool{func(s string) bool { return ok(p.CheckValidSchemaChangeType(p.SchemaChangeType(s))) }}},
+		"SchemaChangeTarget": {func(s string) bool { return p.SchemaChangeTarget(s).IsValid() }, []func(string) bool{func(s string) bool {
+			return ok(p.CheckValidSchemaChangeTarget(p.SchemaChangeTarget(s), p.ProtocolVersion4))
+		}}},
+		"TopologyChangeType": {func(s string) bool { return p.TopologyChangeType(s).IsValid() }, []func(string) bool{func(s string) bool {
+			return ok(p.CheckValidTopologyChangeType(p.TopologyChangeType(s), p.ProtocolVersion3))
+		}}},
+		"StatusChangeType": {func(s string) bool { return p.StatusChangeType(s).IsValid() }, []func(string) bool{func(s string) bool { return ok(p.CheckValidStatusChangeType(p.StatusChangeType(s))) }}},
+		"Compression":      {func(s string) bool { return p.Compression(s).IsValid() }, nil},
 	}
 }
 
